@@ -229,7 +229,7 @@ Section WithLibm.
     calculate_length [] e opt = Done ([], [D.zero]).
   Proof.
     unfold calculate_length. cbn [cum_lengths]. destruct e as [x|]; [|reflexivity].
-    destruct (negb (D.ge (D.abs (D.sub opt x)) D.eps)); [reflexivity|].
+    destruct (negb (D.gt (D.abs (D.sub opt x)) D.zero)); [reflexivity|].
     cbn [last_two_equal rev app andb length Nat.eqb]. reflexivity.
   Qed.
 
